@@ -523,14 +523,14 @@ func (a *AddrManager) nextAddresses(dbTransaction db.DBTransaction, internal boo
 }
 
 func (a *AddrManager) updateManagedAddress(dbTransaction db.ReadTransaction, managedAddresses []*ManagedAddress) error {
-	for _, managedAddress := range managedAddresses {
-		a.addrs[managedAddress.address] = managedAddress
-	}
-
 	am := dbTransaction.FetchBucket(a.storage)
 	inChildNUm, exChildNum, err := fetchChildNum(am)
 	if err != nil {
 		return err
+	}
+	// touch memory only when nothing can fail any more
+	for _, managedAddress := range managedAddresses {
+		a.addrs[managedAddress.address] = managedAddress
 	}
 	a.branchInfo.nextExternalIndex = exChildNum
 	a.branchInfo.nextInternalIndex = inChildNUm
